@@ -79,6 +79,7 @@ Proof.
   assert (Hw : white_space ((c :: name) ++ rest) = CNone).
   { unfold white_space. cbn [app span]. rewrite (alpha_not_space c Hc). reflexivity. }
   rewrite Hw.
+  change (Z.min 0 1) with 0%Z.
   rewrite (lit_name2 (c :: name) rest prev Hn Hs). cbn [length]. reflexivity.
 Qed.
 
